@@ -213,7 +213,7 @@ func (s *crSess) onEvent(ev badger.VEvent) {
 	switch ev.Kind {
 	case badger.VevSyncDir:
 		e.tok = "syncdir"
-	case badger.VevMkdir, badger.VevLock:
+	case badger.VevMkdir, badger.VevLock, badger.VevRenameFrom:
 		e.tok = ""
 	default:
 		ft, base := crFileTok(ev.Path)
@@ -225,7 +225,9 @@ func (s *crSess) onEvent(ev badger.VEvent) {
 			}
 			isSst := strings.HasSuffix(base, ".sst")
 			isMem := strings.HasSuffix(base, ".mem")
-			if isSst || base == "MANIFEST" || (isMem && ev.Kind == badger.VevDelete) {
+			k := ev.Kind
+			build := k == badger.VevCreate || k == badger.VevWrite || k == badger.VevSync
+			if (isSst && build) || (base == "MANIFEST" && (k == badger.VevWrite || k == badger.VevSync)) || (isMem && k == badger.VevDelete) {
 				e.actor = 'F'
 			}
 		}
@@ -310,7 +312,11 @@ func (s *crSess) stepTokens(step int, sequential bool) string {
 		// vlog.Close walks a Go map: order the run of close:vlogN events by file
 		for i := 0; i < len(evs); {
 			j := i
-			for j < len(evs) && evs[j].Kind == badger.VevClose && strings.HasSuffix(evs[j].file, ".vlog") {
+			suffix := ".vlog"
+			if i < len(evs) && strings.HasSuffix(evs[i].file, ".sst") {
+				suffix = ".sst"
+			}
+			for j < len(evs) && evs[j].Kind == badger.VevClose && strings.HasSuffix(evs[j].file, suffix) {
 				j++
 			}
 			if j > i+1 {
@@ -732,6 +738,7 @@ func execCrash(intents []string, st *Stats) (final, outs, oracle []string) {
 				this = ne[lvl%len(ne)]
 			}
 			badger.VerifBackdate(s.db, 2*time.Hour)
+			evBefore := s.nEvents()
 			err := badger.VerifCompact(s.db, 0, this, 1.5, 1.5, nil)
 			if err != nil {
 				emit("compact-none", "none")
@@ -739,7 +746,7 @@ func execCrash(intents []string, st *Stats) (final, outs, oracle []string) {
 				s.steps++
 				continue
 			}
-			s.compactedAt = append(s.compactedAt, s.nEvents())
+			s.compactedAt = append(s.compactedAt, evBefore)
 			var created, deleted []string
 			for _, e := range s.events {
 				if e.step != s.steps {
@@ -753,7 +760,26 @@ func execCrash(intents []string, st *Stats) (final, outs, oracle []string) {
 				}
 			}
 			sort.Slice(created, func(i, j int) bool { a, _ := strconv.Atoi(created[i]); b, _ := strconv.Atoi(created[j]); return a < b })
-			emit(fmt.Sprintf("compact new=%s del=%s", strings.Join(created, ","), strings.Join(deleted, ",")), s.stepTokens(s.steps, true))
+			// content of the new tables (the model takes the picker's and the merge's result as given)
+			var outs []string
+			for _, id := range created {
+				for li, lvl := range badger.VerifLevels(s.db) {
+					for _, t := range lvl {
+						if fmt.Sprint(t.ID) != id {
+							continue
+						}
+						var es []string
+						for _, e := range t.Entries {
+							es = append(es, fmt.Sprintf("%s@%d", hx(e.Key), e.Version))
+						}
+						outs = append(outs, fmt.Sprintf("%d/%s", li, strings.Join(es, "+")))
+					}
+				}
+			}
+			if len(outs) == 0 {
+				outs = []string{"-"}
+			}
+			emit(fmt.Sprintf("compact new=%s del=%s outs=%s", strings.Join(created, ","), strings.Join(deleted, ","), strings.Join(outs, ",")), s.stepTokens(s.steps, true))
 			st.Inc(fmt.Sprintf("compact:L%d,new=%d,del=%d", this, len(created), len(deleted)))
 			s.stepKind = append(s.stepKind, "compact")
 			s.steps++
@@ -846,7 +872,7 @@ func (s *crSess) crashes(kv map[string]string, emit func(string, string), fail f
 				sub = "delete"
 			}
 			v := s.judgeImage(prev, acked, issued, s.exactAt(g), "C08")
-			emit(fmt.Sprintf("crash step=%d w=%d f=%d sub=%s:%s", e.step, wc, fc, sub, strings.SplitN(e.tok, ":", 2)[1]), v.out)
+			emit(fmt.Sprintf("crash step=%d w=%d f=%d sub=%s:%s actor=%c", e.step, wc, fc, sub, strings.SplitN(e.tok, ":", 2)[1], e.actor), v.out)
 			s.st.Inc("crash:sub-" + sub)
 			for _, f := range v.fails {
 				if strings.Contains(f, "-open]") && v.out == "err:zero-length-log" {
@@ -899,7 +925,7 @@ func genCrashSession(rng *rand.Rand, st *Stats) []string {
 	vmax := pick(rng, 3, 5, 1000)
 	keep := pick(rng, 1000, 1000, 1)
 	var ops []string
-	ops = append(ops, fmt.Sprintf("reset sync=%d memsz=%d thr=%d vmax=%d keep=%d l0close=%d", b2i(sync), memsz, thr, vmax, keep, rng.Intn(2)))
+	ops = append(ops, fmt.Sprintf("reset sync=%d memsz=%d thr=%d vmax=%d keep=%d l0close=%d", b2i(sync), memsz, thr, vmax, keep, 0))
 	st.Inc(fmt.Sprintf("session:sync=%v,memsz=%d", sync, memsz))
 	nkeys := 3 + rng.Intn(6)
 	var keys [][]byte
